@@ -37,5 +37,18 @@ package batch
 //@   call safeInvoke ghost nmany = nmany + 1
 //@   call close#2 assert arg0 == bg.doneCh
 //@   call close#2 ghost ndone = ndone + 1
+// never mixes shards: groups are keyed by the function and by the value its Shard function returned - the value itself,
+// not a rendering of it; user code (Shard) runs before the batch context's mutex is taken, so a panicking Shard function
+// fails its own caller only
+//@   ghost sh interface{}
+//@   ghost sharded bool
+//@   entry ghost sharded = false
+//@   call dynamic assert !held(batchContext.mu)
+//@   call dynamic ghost sh = ret0
+//@   call dynamic ghost sharded = true
+//@   call mapupdate:pendingBatchGroups assert arg1 == fs && fs.f == f && (sharded ==> fs.shard == sh) && (!sharded ==> fs.shard == nil)
+// never exceeds MaxSize: when the critical section that appended the argument ends, a group that has reached MaxSize is
+// no longer pending (so nobody can join it)
+//@   call Mutex.Unlock#1 assert f.MaxSize > 0 && len(bg.args) == f.MaxSize ==> !((fs in bctx.pendingBatchGroups) && bctx.pendingBatchGroups[fs] == bg)
 //@   ensures !existed ==> ndone == 1 && nmany <= 1
 //@   ensures existed ==> ndone == 0 && nmany == 0
